@@ -17,7 +17,7 @@ META = {
                     "parking is compared on qubit-disjoint subsets only (a qubit taking part in two gates is never an accepted step)"],
     "exhaustive": {"quick": True, "thorough": True},
     "floors": {
-        "quick": {"subsets_checked": 2900, "parking_queries": 12000, "sequences_checked": 150, "sequence_generator_calls": 100, "accepted_subsets": 150, "rejected_subsets": 1500},
+        "quick": {"subsets_checked": 2900, "parking_queries": 12000, "sequences_checked": 150, "sequence_generator_calls": 100, "non_divisible_generator_calls": 20, "accepted_subsets": 150, "rejected_subsets": 1500},
         "thorough": {"subsets_checked": 15000, "parking_queries": 30000, "sequences_checked": 800},
     },
 }
@@ -130,7 +130,12 @@ def check_subset(idx: Tuple[int, ...], conn, model: Model, lib_edges, acc: Acc):
 
 def check_sequences(rng: random.Random, conn, model: Model, lib_edges, acc: Acc):
     from qce_circuit.connectivity.mapping.gate_sequence_generator import GateSequenceGenerator
-    n, k = rng.choice([(2, 1), (3, 1), (2, 2), (4, 2), (6, 2), (3, 3), (6, 3), (4, 4), (8, 4), (8, 2)])
+    if rng.random() < 0.25:
+        # edge count not a multiple of the step size (or smaller than it): whatever is emitted must still use every gate once
+        n, k = rng.choice([(3, 2), (5, 2), (7, 2), (1, 2), (4, 3), (5, 3), (2, 3), (7, 3), (5, 4), (6, 4), (3, 4)])
+        acc.count("non_divisible_generator_calls")
+    else:
+        n, k = rng.choice([(2, 1), (3, 1), (2, 2), (4, 2), (6, 2), (3, 3), (6, 3), (4, 4), (8, 4), (8, 2)])
     idx = rng.sample(range(len(lib_edges)), n)
     case = {"edges": [list(model.edges[i]) for i in idx], "subgroup_size": k}
     gen = GateSequenceGenerator(included_edge_ids=[lib_edges[i] for i in idx], connectivity=conn)
